@@ -239,8 +239,8 @@ def run_case(case):
         bump("positions_enumerated")
         if not fe and not fl:
             bump("positions_not_reached")
-            res["viol"].append({"what": "harness: fault position %s/%s/%d of the reference run was not reached"
-                                        % (kind, comp, k), "key": {"kind": "harness-position-not-reached"}})
+            res["inconclusive"] = ("fault position %s/%s/%d of the reference run was not reached (injector bypassed?)"
+                                   % (kind, comp, k))
             continue
         bump("positions_hit_%s" % (comp if kind == "eval" else kind))
         viol, st = judge(case, p, out, fe, fl)
